@@ -601,7 +601,7 @@ func (s *scope) createInstance(descriptor *Descriptor) (any, error) {
 			s.rememberNilOutputs(descriptor, stored)
 		}
 
-		if primaryService == nil {
+		if primaryService == nil && len(stored) == 0 {
 			return nil, &ValidationError{
 				ServiceType: descriptor.Type,
 				Cause:       fmt.Errorf("result object produced no services"),
